@@ -43,7 +43,7 @@ Qed.
     and claims a pair owned under a different name fails with "host in use"
     and leaves the services unchanged. *)
 Theorem c05_conflict_rejected : forall v st name o t targets h p n,
-  init_check (normalize o) = None ->
+  init_check v (normalize o) = None ->
   forallb valid_target_name (map tg_name targets) = true ->
   forallb tg_healthy targets = true ->
   In h (o_hosts (normalize o)) -> In p (o_prefixes (normalize o)) ->
@@ -54,7 +54,7 @@ Proof. exact deploy_conflict_rejected. Qed.
 
 (** ... and that is the only thing that decides such a deploy. *)
 Theorem c05_deploy_decided : forall v st name o t targets,
-  init_check (normalize o) = None ->
+  init_check v (normalize o) = None ->
   forallb valid_target_name (map tg_name targets) = true ->
   forallb tg_healthy targets = true ->
   let r := fst (exec v st (Deploy name o t targets)) in
@@ -84,7 +84,7 @@ Proof. exact remove_releases. Qed.
 (** ... so that a deploy which was blocked only by pairs of [name] now succeeds. *)
 Theorem c05_remove_then_deploy : forall v st name st1 name2 o t targets,
   exec v st (Remove name) = (Ok, st1) ->
-  init_check (normalize o) = None ->
+  init_check v (normalize o) = None ->
   forallb valid_target_name (map tg_name targets) = true ->
   forallb tg_healthy targets = true ->
   (forall h p n, In h (o_hosts (normalize o)) -> In p (o_prefixes (normalize o)) ->
@@ -157,16 +157,16 @@ Proof. vm_compute. repeat split; reflexivity. Qed.
 Example c05_example_conflict :
   let st := exec_all fixed init_state (firstn 2 ex_history) in
   let o := ex_opts [bs "x.com"; bs ""; bs "*.x.com"] [bs "api/"] in
-  init_check (normalize o) = None /\
+  let st1 := snd (exec fixed st (Remove (bs "b"))) in
+  init_check fixed (normalize o) = None /\
   forallb valid_target_name (map tg_name ex_tg) = true /\ forallb tg_healthy ex_tg = true /\
   In (bs "x.com") (o_hosts (normalize o)) /\ In (bs "/api") (o_prefixes (normalize o)) /\
   In (bs "x.com", bs "/api", bs "b") (triples (table_of (st_services st))) /\ bs "b" <> bs "c" /\
-  exists st1, exec fixed st (Remove (bs "b")) = (Ok, st1) /\
-    fst (exec fixed st1 (Deploy (bs "c") o ex_topts ex_tg)) = Ok.
+  fst (exec fixed st (Remove (bs "b"))) = Ok /\
+  fst (exec fixed st1 (Deploy (bs "c") o ex_topts ex_tg)) = Ok.
 Proof.
-  vm_compute. repeat split; try reflexivity; auto.
-  - intros H; discriminate.
-  - eexists. split; reflexivity.
+  cbv zeta. repeat split; try (vm_compute; reflexivity); try (vm_compute; auto; fail).
+  intros H; vm_compute in H; discriminate.
 Qed.
 
 Example c05_example_one_winner :
@@ -176,8 +176,8 @@ Example c05_example_one_winner :
   fst (exec pinned init_state (Deploy (bs "a") o1 ex_topts ex_tg)) = Ok /\
   fst (exec pinned init_state (Deploy (bs "b") o2 ex_topts ex_tg)) = Ok.
 Proof.
-  vm_compute. repeat split; try reflexivity; auto.
-  intros H; discriminate.
+  cbv zeta. repeat split; try (vm_compute; reflexivity); try (vm_compute; auto; fail).
+  intros H; vm_compute in H; discriminate.
 Qed.
 
 Print Assumptions c05_unique_owner.
